@@ -301,6 +301,18 @@ def detect_jitter(ctx, st, rc, noise, pat, replay):
     k = round(np.log10(max(jit, 1e-300) / j0))
     lad = j0 * 10.0 ** k
     if jit > 0 and 0 <= k <= 12 and abs(jit - lad) <= 1e-6 * lad + slack:
+        # documented: sigsq_final is *minimal* on the ladder.  The previous ladder value must be one at which the
+        # factorisation can fail, i.e. the reference matrix is not safely positive definite there (smallest
+        # eigenvalue within the rounding perturbation E of zero); borderline cases are accepted either way.
+        prev = noise + (lad / 10.0 if k > 0 else 0.0)
+        Aprev = ctx.K[np.ix_(rc.ii, rc.ii)] + prev * np.eye(rc.n)
+        lam = np.linalg.eigvalsh(Aprev)
+        margin = 4.0 * float(np.linalg.norm(rc.B.E, 2))
+        if lam[0] > margin:
+            ctx.V.add(f"jitter/not-minimal:{pat}",
+                      f"jitter {lad:g} was added although K + {prev:g} I is safely positive definite "
+                      f"(lambda_min {lam[0]:.3g} > rounding margin {margin:.3g})", replay)
+            return None
         ctx.cov.outcome("jitter_added_from_scratch")
         return lad
     ctx.V.add(f"jitter/not-on-ladder:{pat}",
